@@ -240,7 +240,7 @@ func TestP1RoundTrip(t *testing.T) {
 	rec := ev.New("C15", "roundtrip")
 	defer rec.Finish(t)
 	rec.Rule("afm.Metrics values in the representable domain: 0-12 glyphs with names that are single tokens without ';' (incl. names equal to AFM keywords N, C, WX, L, B, KPX, Comment and names over all printable bytes), integer widths in the int16 range incl. extremes, integer boxes or none, 0-4 ligatures per glyph, injective encodings, header numbers integral (ItalicAngle with two decimals), single-token FontName, single-spaced text in FullName / Version / Notice (possibly empty), 0-6 kerning pairs. Oracle (a): Read(Write(M)) equals M in every glyph field, the code of each glyph, kerning order and every header field incl. Version and Notice. Oracle (b): Read(layout(M)) equals M, where layout is the harness's own AFM writer with shuffled header and glyph lines, shuffled fields within a line, varying white space, CRLF, comments, extra header keys. Non-trivial: >= 3 glyphs, >= 1 ligature, >= 1 kerning pair; distinct by metrics value.")
-	ev.SetupRapid(16000, 800000)
+	ev.SetupRapid(80000, 3200000)
 	rapid.Check(t, func(t *rapid.T) {
 		m, feat := genMetrics(t)
 		c := &metricsCase{M: m, Layout: afmref.Write(m, t1gen.RapidChooser{T: t})}
@@ -434,7 +434,7 @@ func TestP2Closure(t *testing.T) {
 	rec := ev.New("C15", "closure")
 	defer rec.Finish(t)
 	rec.Rule("AFM texts from a line grammar: header keys present or absent with multi-word text and extra spaces, numbers with fractions, exponents, signs and values up to 1e9, IsFixedPitch spellings; glyph lines with codes out of range (-5, 256, 300), duplicate codes and names, widths beyond int16, fractional boxes, 0-2 ligatures, junk fields, missing names; kerning values beyond int16; LF and CRLF. F1 = Read(x) (rejected, non-finite or > 1e9 inputs are counted and discarded); F2 = Read(Write(F1)) must keep all names and text fields and change every number by less than 1; F3 = Read(Write(F2)) must equal F2 (field comparison and reflect.DeepEqual). Non-trivial: >= 3 glyph lines and >= 1 fractional number; distinct by text.")
-	ev.SetupRapid(12000, 400000)
+	ev.SetupRapid(60000, 1600000)
 	rapid.Check(t, func(t *rapid.T) {
 		text, frac := genAFMText(t)
 		c := &textCase{Text: text}
